@@ -446,6 +446,28 @@ func runC03(w *World, r *Report) {
 		r.Check(ok, "C03-R6", "(*replicateChannelHandler).startReadChannel | InitTSInfo receives the seek timestamp", sr.Pos(), "clock initialised from r.sourceSeekPosition", "the channel clock is not initialised from the seek position")
 	}
 
+	// ---------- R1b: the re-shift under the channel lock is on every emitting path
+	{
+		ups := calls("UnsafeUpdatePackTS")
+		pubs := calls("UnsafeUpdateTSInfo")
+		ok := len(ups) > 0 && len(pubs) > 0
+		for _, p := range pubs {
+			dom := false
+			for _, u := range ups {
+				if instrDominates(u, p) {
+					dom = true
+				}
+			}
+			if !dom {
+				ok = false
+			}
+		}
+		r.Check(ok, "C03-R1", "handlePack | re-shift under the lock precedes every tick publication", fn.Pos(), "UnsafeUpdatePackTS dominates UnsafeUpdateTSInfo", "a path publishes the closing tick without having gone through UnsafeUpdatePackTS under the channel lock: a tick of another stream that overtook this pack between its shift and the lock is not noticed, and the pack's messages end up at or below that tick")
+	}
+
+	// the pack is sorted by source time before it is re-timed (resetMsgPackTimestamp hands out new times by index)
+	r.importRules(runC01, "C03-", map[string]bool{"C01-R7": true})
+
 	// ---------- R7
 	{
 		collects := calls("CollectTS")
@@ -466,8 +488,19 @@ func runC03(w *World, r *Report) {
 		r.Check(okBegin, "C03-R7", "handlePack | CollectTS(beginTS) before the first re-timing", fn.Pos(), "dominates resetMsgPackTimestamp", "the pack is re-timed against a channel clock that has not seen the pack's own begin time")
 		okEnd := false
 		if firstReset != nil {
+			resetPack := baseObject(familyOf(fn), firstReset.Call.Args[0])
 			for _, c := range collects {
 				if !strings.HasSuffix(w.accessPath(callArgs(c.Common())[1]), ".EndTs") {
+					continue
+				}
+				// the end time collected is that of the pack that was just re-timed, not of the source pack
+				samePack := false
+				for _, x := range backSlice(callArgs(c.Common())[1], SliceOpts{MaxDepth: 5}) {
+					if fa, isFA := x.(*ssa.FieldAddr); isFA && baseObject(familyOf(fn), fa.X) == resetPack {
+						samePack = true
+					}
+				}
+				if !samePack {
 					continue
 				}
 				for _, b := range fn.Blocks {
